@@ -65,6 +65,9 @@ def run(ctx):
         ini = calls_to(wir, "RegionalState::initialize")
         lds = [(bb, t) for bb, t in wir.calls() if t["callee"].get("method") == "load" and "arc_swap" in callee_key(t["callee"]).lower() or
                (t["callee"].get("method") == "load" and "ArcSwap" in t["callee"]["full"])]
+        # only loads of the GLOBAL latest value count as re-validation (a load of the regional slot proves nothing: the installing
+        # store has just overwritten any invalidation there)
+        lds = [(bb, t) for bb, t in lds if t["args"] and (op_access_path(wir, t["args"][0])[1] or [""])[-1].endswith("GlobalState::latest_value")]
         twv = calls_to(wir, "RegionalState::try_with_value")
         inv = calls_to(wir, "GlobalState::invalidate_regions")
         ok = len(ini) == 1 and len(twv) == 1 and bool(lds)
@@ -172,17 +175,22 @@ def invalidate_and_generation_rules(ctx, prog):
         ctx.missing("R6.invalidate-visits-every-region", "GlobalState::invalidate_regions")
     else:
         ctx.fn(inv)
-        cl = [(bb, t) for bb, t in inv.calls() if t["callee"].get("method") == "clear" and "RegionalState" in callee_key(t["callee"])]
-        ok = len(cl) == 1 and inv.in_loop(cl[0][0])
-        det = f"RegionalState::clear sites {len(cl)} (in loop: {ok})"
-        if ok:
-            okv, d2 = loop_visits_all(inv, cl[0][0])
-            src_ok = False
-            for bb, t in inv.calls():
-                if t["callee"].get("method") == "next":
-                    src_ok = src_ok or any(f.endswith("GlobalState::regional_states") for f in Slice(inv).run(t["args"][0])["fields"])
-            ok = okv and src_ok
-            det += f"; iterates regional_states: {src_ok}; {d2}"
+        from ..analysis import element_ops
+        eo = element_ops(prog, inv, lambda t: (t["callee"].get("method") == "clear" and "RegionalState" in callee_key(t["callee"])) or
+                         callee_key(t["callee"]).endswith("RegionalState::clear"))
+        # `for_each(RegionalState::clear)` passes the function itself: the op is then the adaptor call
+        fe = [(bb, t) for bb, t in inv.calls() if t["callee"].get("method") == "for_each" and "RegionalState::clear" in t["callee"].get("full", "")]
+        ok = (bool(eo) and all(e["ok"] for e in eo)) or bool(fe)
+        det = f"RegionalState::clear applied to every slot: {[e['form'] + ': ' + e['detail'] for e in eo] or [t['callee']['full'][:80] for _b, t in fe]}"
+        src_ok = False
+        srcs = [(e["in"], e["src"]) for e in eo if e["src"] is not None] + [(inv, t["args"][0]) for _b, t in fe]
+        for bd_, op_ in srcs:
+            src_ok = src_ok or any(f.endswith("GlobalState::regional_states") for f in Slice(bd_).run(op_)["fields"])
+        if fe and not eo:
+            from ..analysis import iter_chain, POSITIONAL_CUT
+            ok = ok and not (set(iter_chain(inv, fe[0][1]["args"][0])) & POSITIONAL_CUT)
+        ok = ok and src_ok
+        det += f"; iterates regional_states: {src_ok}"
         ctx.ob("R6.invalidate-visits-every-region", "invalidate_regions", ok, inv.loc(), det)
     new = prog.one("region_cached::GlobalState::new")
     if new is None:
